@@ -141,3 +141,67 @@ pub fn flip_first_digest(v: &mut Value) -> bool {
 pub fn obj_mut(v: &mut Value) -> Option<&mut Map<String, Value>> {
     v.as_object_mut()
 }
+
+/// Number of digest strings in a payload (entries of `_sd` arrays and `...` placeholders).
+pub fn count_digests(v: &Value) -> usize {
+    match v {
+        Value::Object(m) => {
+            let mut n = 0;
+            for (k, c) in m {
+                if k == "_sd" {
+                    n += c.as_array().map(|a| a.iter().filter(|x| x.is_string()).count()).unwrap_or(0);
+                } else if k == "..." && m.len() == 1 && c.is_string() {
+                    n += 1;
+                } else {
+                    n += count_digests(c);
+                }
+            }
+            n
+        }
+        Value::Array(a) => a.iter().map(count_digests).sum(),
+        _ => 0,
+    }
+}
+
+/// Flip the first character of the n-th digest (same enumeration order as `count_digests`).
+pub fn flip_nth_digest(v: &mut Value, n: usize, seen: &mut usize) -> bool {
+    fn flip(s: &mut String) {
+        let first = s.chars().next().unwrap_or('A');
+        let repl = if first == 'A' { 'B' } else { 'A' };
+        let rest: String = s.chars().skip(1).collect();
+        *s = format!("{repl}{rest}");
+    }
+    match v {
+        Value::Object(m) => {
+            let single = m.len() == 1;
+            for (k, c) in m.iter_mut() {
+                if k == "_sd" {
+                    if let Some(a) = c.as_array_mut() {
+                        for x in a.iter_mut() {
+                            if let Value::String(s) = x {
+                                if *seen == n {
+                                    flip(s);
+                                    return true;
+                                }
+                                *seen += 1;
+                            }
+                        }
+                    }
+                } else if k == "..." && single && c.is_string() {
+                    if *seen == n {
+                        if let Value::String(s) = c {
+                            flip(s);
+                        }
+                        return true;
+                    }
+                    *seen += 1;
+                } else if flip_nth_digest(c, n, seen) {
+                    return true;
+                }
+            }
+            false
+        }
+        Value::Array(a) => a.iter_mut().any(|c| flip_nth_digest(c, n, seen)),
+        _ => false,
+    }
+}
